@@ -172,7 +172,14 @@ func (s *BlockchainRpcTxWatcher) StartBlockWatcher() error {
 
 // HandleCsvTx looks for transactions that have enough confirmations to be spend using the csv path
 func (s *BlockchainRpcTxWatcher) HandleCsvTx(blockheight uint64) error {
-	var toRemove []string
+	// Collect the matured swaps under the lock but call back without it: the
+	// callback takes the swap's own lock, while a swap action that already
+	// holds that lock may be registering a csv watch, which needs this lock.
+	type maturedTx struct {
+		swapId string
+		info   SwapTxInfo
+	}
+	var matured []maturedTx
 	s.Lock()
 	for k, v := range s.csvtxWatchList {
 		res, err := s.blockchain.GetTxOut(v.TxId, v.TxVout)
@@ -189,15 +196,21 @@ func (s *BlockchainRpcTxWatcher) HandleCsvTx(blockheight uint64) error {
 		if s.csvPassedCallback == nil {
 			continue
 		}
-		err = s.csvPassedCallback(k)
+		matured = append(matured, maturedTx{swapId: k, info: *v})
+	}
+	callback := s.csvPassedCallback
+	s.Unlock()
+
+	var toRemove []string
+	for _, m := range matured {
+		err := callback(m.swapId)
 		if err != nil {
 			log.Infof("csv passed callback err: %v. swap id: %s, tx id: %s, starting block height: %d",
-				err, k, v.TxId, v.StartingBlockHeight)
+				err, m.swapId, m.info.TxId, m.info.StartingBlockHeight)
 			continue
 		}
-		toRemove = append(toRemove, k)
+		toRemove = append(toRemove, m.swapId)
 	}
-	s.Unlock()
 	s.TxClaimed(toRemove)
 	return nil
 }
@@ -232,29 +245,35 @@ func (l *BlockchainRpcTxWatcher) checkTxAboveCsvHight(txId string, vout, csv uin
 }
 
 func (l *BlockchainRpcTxWatcher) AddWaitForCsvTx(swapId, txId string, vout uint32, startingBlockheight, csv uint32, _ []byte) {
-	// Before we add the tx to the watcher we check if the tx is already
-	// above the csv limit.
-	above, err := l.checkTxAboveCsvHight(txId, vout, csv)
-	if err != nil {
-		log.Infof("[TxWatcher] checkTxAboveCsvHeight returned: %s", err.Error())
-	}
-	if above {
-		err = l.csvPassedCallback(swapId)
-		if err == nil {
-			log.Infof("Swap %s already past CSV limit", swapId)
-			return
-		}
-		log.Infof("csv passed callback error: %v", err)
-	}
-
 	l.Lock()
-	defer l.Unlock()
 	l.csvtxWatchList[swapId] = &SwapTxInfo{
 		TxId:                txId,
 		TxVout:              vout,
 		Csv:                 csv,
 		StartingBlockHeight: startingBlockheight,
 	}
+	callback := l.csvPassedCallback
+	l.Unlock()
+
+	// The tx may already be above the csv limit. The caller usually is a swap
+	// action that holds the swap's lock, and the callback needs that lock too,
+	// so the check must not run (and call back) in the caller's goroutine.
+	go func() {
+		above, err := l.checkTxAboveCsvHight(txId, vout, csv)
+		if err != nil {
+			log.Infof("[TxWatcher] checkTxAboveCsvHeight returned: %s", err.Error())
+			return
+		}
+		if !above || callback == nil {
+			return
+		}
+		if err := callback(swapId); err != nil {
+			log.Infof("csv passed callback error: %v", err)
+			return
+		}
+		log.Infof("Swap %s already past CSV limit", swapId)
+		l.TxClaimed([]string{swapId})
+	}()
 }
 
 func (l *BlockchainRpcTxWatcher) TxClaimed(swaps []string) {
